@@ -113,6 +113,9 @@ func genLifecycle(prop string, seed uint64, run int, tier string, cycles int, ov
 	if g.chance(overflow) {
 		sc.Cfg.QueueLimit = 2 + g.r.Intn(20)
 	}
+	if prop == "C10" && g.chance(0.1) {
+		sc.Cfg.FaultRead = 6 + g.r.Intn(20)
+	}
 	if prop == "C10" && g.chance(0.6) {
 		// all speeds relative to the reader
 		sc.Cfg.Weights = map[string]float64{"reader": []float64{0.02, 0.1, 1, 10}[g.r.Intn(4)], "world": []float64{0.1, 1, 10}[g.r.Intn(3)]}
@@ -324,6 +327,9 @@ func genClose(prop string, seed uint64, run int, tier string) *Scenario {
 		consumers: []string{"both", "both", "events", "errors", "none", "stop"}})
 	sc.Family = "close"
 	g.r.S ^= 0x5bd1e995
+	if g.chance(0.25) {
+		sc.Cfg.FaultRead = 4 + g.r.Intn(20) // F9: a transient read error now and then
+	}
 	// insert Close calls: 1–3 tasks, each 1–2 calls, at random positions; other
 	// clients keep calling the API around them
 	var watched []string
@@ -381,6 +387,9 @@ func genPending(prop string, seed uint64, run int, tier string) *Scenario {
 	sc.Cfg.Consumers = []ConsumerCfg{{Mode: mode, StopN: g.r.Intn(5)}}
 	if g.chance(0.3) {
 		sc.Cfg.QueueLimit = 2 + g.r.Intn(8)
+	}
+	if g.chance(0.1) {
+		sc.Cfg.FaultRead = 6 + g.r.Intn(20)
 	}
 	buf := []int{-1, 0, 1, 64}[g.r.Intn(4)]
 	setup := []Op{{K: OpMkdir, P: "d"}, {K: OpMkdir, P: "e"}, {K: OpCreate, P: "d/f"}, {K: OpCreate, P: "d/g"}, {K: OpMkdir, P: "d/sub"},
